@@ -16,6 +16,9 @@ from . import build, driver, engine, props, wire
 from .genv import VGen
 from .purity_stream import snap
 
+import os as _os
+VERIF = _os.path.dirname(_os.path.dirname(_os.path.abspath(__file__)))
+
 
 def to_j(x: Any, ctx: wire.Ctx) -> Any:
     """real schema value -> the wire form of the model's `J`"""
@@ -87,6 +90,11 @@ def type_vids(v: Any, env: List[dict]) -> List[int]:
     return out
 
 
+def nonrecurrent_vids(v: Any, env: List[dict]) -> List[int]:
+    return sorted({d["vid"] for d in props.find_all(v, env)
+                   if d.get("k") == "lazy" and d.get("recurrent", True) is False})
+
+
 def gen_case(g: VGen, opts: dict) -> dict:
     r = g.rng
     g.reset()
@@ -94,6 +102,10 @@ def gen_case(g: VGen, opts: dict) -> dict:
     g.async_rate = 0.03
     g.special_rate = opts.get("special_rate", 0.06)
     v = g.gen_v(r.choice([0, 0, 1, 1, 2, 3]))
+    # `Lazy(thunk, recurrent=False)`: schema generation must not follow the thunk (which may well be recursive)
+    for d in list(props.find_all(v, g.env)):
+        if d.get("k") == "lazy" and r.random() < 0.25:
+            d["recurrent"] = False
     named = None
     if r.random() < 0.4:
         name = "".join(chr(r.choice([97, 65, 95, 32, 47, 35, 0xe9, 48])) for _ in range(r.choice([0, 1, 4])))
@@ -209,12 +221,28 @@ def shard(seed: int, shard_i: int, n: int, opts: dict) -> dict:
         cases.append(c)
         reals.append(out)
         req = {"op": "schema", "v": c["v"], "typeVids": type_vids(c["v"], c["env"]),
+               "nonRecurrent": nonrecurrent_vids(c["v"], c["env"]),
                "printer": printer_tables(c["v"], c["env"])}
         if c["named"] is not None:
             req["named"] = c["named"]
         reqs.append(req)
         if len(samples) < 1 and "ok" in out:
             samples.append({"v": c["v"], "named": c["named"]})
+    # determinism across the history of the process: the schema of a validator is the same after any
+    # number of other schemas have been generated (module-level state, shared output objects)
+    n_hist = 0
+    for j, (c, out) in enumerate(zip(cases, reals)):
+        if "ok" not in out or n_hist >= 3:
+            continue
+        wire.set_classes(c["classes"])
+        _, out2, _ = real_schema(c)
+        if out2 != out:
+            n_hist += 1
+            hist = minimise_history(c, cases[j + 1:])
+            failures.append({"property": "C10", "case": dict(c, history=hist), "xd": c["named"],
+                             "what": "schema generation is not deterministic: the schema of the same validator "
+                                     f"changed after {len(hist)} other schema(s) were generated in the same process",
+                             "real": out2})
     answers = driver.run_batch(reqs) if reqs else []
     disagreements = []
     for c, real, a in zip(cases, reals, answers):
@@ -254,7 +282,67 @@ def run(pid: str, tier: str, seed: int, spec: dict, scale: float = 1.0, salt: st
     return out
 
 
+def history_fails(case: dict) -> List[str]:
+    """in a fresh process: schema of the case, then of its `history`, then of the case again"""
+    wire.set_classes(case.get("classes", []))
+    unb, out, fails = real_schema(case)
+    if unb:
+        return ["case cannot be built: " + unb]
+    for h in case.get("history", []):
+        wire.set_classes(h.get("classes", []))
+        real_schema(h)
+    wire.set_classes(case.get("classes", []))
+    _, out2, _ = real_schema(case)
+    if out2 != out:
+        fails.append("schema generation is not deterministic: the schema of the same validator changed after "
+                     f"{len(case.get('history', []))} other schema(s) were generated in the same process")
+    return fails
+
+
+def in_subprocess(case: dict) -> bool:
+    import os
+    import subprocess
+    import sys
+    import tempfile
+    with tempfile.NamedTemporaryFile("w", suffix=".json", delete=False) as f:
+        json.dump(case, f)
+    try:
+        p = subprocess.run([sys.executable, "-m", "harness.schema_stream", f.name], cwd=VERIF,
+                           stdout=subprocess.PIPE, stderr=subprocess.DEVNULL, timeout=120)
+        return b"not deterministic" in p.stdout
+    except Exception:  # noqa
+        return False
+    finally:
+        os.unlink(f.name)
+
+
+def minimise_history(c: dict, later: List[dict]) -> List[dict]:
+    """a short list of later cases after which the schema of `c` changes (each candidate is tried in a
+    fresh interpreter, since the state that leaks is the interpreter's)"""
+    for h in later[:60]:
+        if in_subprocess(dict(c, history=[h])):
+            return [h]
+    lo = list(later)
+    while len(lo) > 1:
+        half = lo[:len(lo) // 2]
+        if in_subprocess(dict(c, history=half)):
+            lo = half
+        elif in_subprocess(dict(c, history=lo[len(lo) // 2:])):
+            lo = lo[len(lo) // 2:]
+        else:
+            break
+    return lo
+
+
 def replay_case(case: dict) -> List[str]:
+    if case.get("history"):
+        return history_fails(case)
     wire.set_classes(case.get("classes", []))
     unb, out, fails = real_schema(case)
     return fails if not unb else ["case cannot be built: " + unb]
+
+
+if __name__ == "__main__":
+    import sys
+    for f_ in history_fails(json.load(open(sys.argv[1]))):
+        print(f_)
